@@ -552,7 +552,8 @@ async fn run_markers(
         return (None, vec![]);
     }
     let mut items = vec![];
-    let mut waits = vec![];
+    let mut waits: Vec<(usize, u64, Vec<String>)> = vec![];
+    let mut markers: Vec<(Vec<String>, String)> = vec![];
     for (k, (i, tid, pat)) in targets.iter().enumerate() {
         // a key the pattern matches: wildcards replaced by a marker segment; '#' by one level
         let mut legal = true;
@@ -571,7 +572,8 @@ async fn run_markers(
         }
         let val = format!("__marker{k}");
         items.push(json!({"op": "publish", "key": key, "val": val, "tid": 100 + k as u64, "wait": true, "marker": true}));
-        waits.push((*i, *tid, val));
+        waits.push((*i, *tid, pat.clone()));
+        markers.push((key, val));
     }
     if items.is_empty() {
         return (None, vec![]);
@@ -579,20 +581,32 @@ async fn run_markers(
     let barriers = Arc::new(HashMap::new());
     let adm = run_session("adm".to_owned(), items, sock.clone(), sh.clone(), barriers, None).await;
     let mut exact = vec![];
-    for (i, tid, val) in waits {
+    // a stream is complete once it shows every marker its pattern matches (not only its own one)
+    for (i, tid, pat) in waits {
         let (name, st, _, notify) = &done[i];
-        let seen = wait_until(
-            st,
-            notify,
-            |g| {
-                g.closed_by_server
-                    || g.streams.get(&tid).map(|evs| evs.iter().any(|e| e["kvs"].as_array().map(|a| a.iter().any(|kv| kv[1] == val.as_str())).unwrap_or(false))).unwrap_or(false)
-            },
-            5000,
-        )
-        .await;
+        let mut all = true;
+        for (key, val) in &markers {
+            let (must, ms) = match crate::util::marker_matches(&pat, key) {
+                Some(true) => (true, 5000),
+                Some(false) => continue,
+                None => (false, 200),
+            };
+            let seen = wait_until(
+                st,
+                notify,
+                |g| {
+                    g.closed_by_server
+                        || g.streams.get(&tid).map(|evs| evs.iter().any(|e| e["kvs"].as_array().map(|a| a.iter().any(|kv| kv[1] == val.as_str())).unwrap_or(false))).unwrap_or(false)
+                },
+                ms,
+            )
+            .await;
+            if must && !seen {
+                all = false;
+            }
+        }
         let g = st.lock().await;
-        if seen && !g.closed_by_server {
+        if all && !g.closed_by_server {
             exact.push(format!("{name}:{tid}"));
         }
     }
